@@ -29,6 +29,7 @@ type TierCfg struct {
 	Skip         bool           `json:"skip"`
 	FeasMs       int            `json:"feas_ms"`
 	AssertMs     int            `json:"assert_ms"`
+	BudgetS      int            `json:"budget_s"` // wall budget of the harness in seconds (0 = none); exceeding it is INCONCLUSIVE
 	GenericFork  bool           `json:"generic_fork"`
 	AbstractURem bool           `json:"abstract_urem"`
 	AbstractDiv  bool           `json:"abstract_div"`   // over-approximate symbolic/symbolic division (exact re-check on sat)
@@ -247,21 +248,39 @@ func RunCheck(o RunOpts, propID string) int {
 			}
 			rep.Known = append(rep.Known, id)
 		}
-		for _, v := range jr.Violations {
-			path := writeReplay(o, propID, h, v)
+		// several candidate counterexamples may exist per label: the first one that reproduces natively is
+		// reported; a label none of whose candidates reproduces is an engine mismatch (inconclusive)
+		doneLabel := map[string]bool{}
+		lastNote := map[string]string{}
+		var labelOrder []string
+		for i, v := range jr.Violations {
+			if doneLabel[v.Label] {
+				continue
+			}
+			if _, seen := lastNote[v.Label]; !seen {
+				labelOrder = append(labelOrder, v.Label)
+				lastNote[v.Label] = ""
+			}
+			path := writeReplayN(o, propID, h, v, i)
 			ok, note := true, ""
 			if !o.NoReplay && !v.NoNativeReplay {
 				ok, note = nativeReplay(o, L, h, path, v)
 			}
 			if ok {
+				doneLabel[v.Label] = true
 				fmt.Printf("VIOLATION property=%s replay=%s\n", propID, path)
 				fmt.Printf("  harness=%s label=%s: %s\n  inputs: %s\n", h.Func, v.Label, v.Msg, tapeString(v.Tape))
 				rep.Violations = append(rep.Violations, v.Label+": "+v.Msg)
 				allViol = append(allViol, v)
 				exit = 1
 			} else {
-				inconclusive = append(inconclusive, fmt.Sprintf("%s: engine-mismatch: counterexample for %s did not reproduce natively (%s)", h.Func, v.Label, note))
-				rep.ReplayNote = append(rep.ReplayNote, note)
+				lastNote[v.Label] = note
+			}
+		}
+		for _, l := range labelOrder {
+			if !doneLabel[l] {
+				inconclusive = append(inconclusive, fmt.Sprintf("%s: engine-mismatch: no counterexample for %s reproduced natively (%s)", h.Func, l, lastNote[l]))
+				rep.ReplayNote = append(rep.ReplayNote, lastNote[l])
 			}
 		}
 		// witness replays
@@ -341,9 +360,13 @@ func runHarness(L *Loaded, o RunOpts, h *HarnessCfg, fn *ssa.Function) (*harness
 		nw = runtime.NumCPU()
 	}
 	// one shared work list per case; workers are spread over the cases
+	ctl := &runCtl{}
+	if t.BudgetS > 0 {
+		ctl.budget = time.Now().Add(time.Duration(t.BudgetS) * time.Second).UnixNano()
+	}
 	lists := make([]*workList, cases)
 	for i := range lists {
-		lists[i] = &workList{items: [][]dec{nil}}
+		lists[i] = &workList{items: [][]dec{nil}, ctl: ctl}
 	}
 	var wg sync.WaitGroup
 	per := nw / cases
@@ -419,9 +442,17 @@ type replayFile struct {
 }
 
 func writeReplay(o RunOpts, prop string, h *HarnessCfg, v *Violation) string {
+	return writeReplayN(o, prop, h, v, 0)
+}
+
+// writeReplayN: the first candidate of a label keeps the plain name, alternatives get a numeric suffix.
+func writeReplayN(o RunOpts, prop string, h *HarnessCfg, v *Violation, idx int) string {
 	dir := filepath.Join(o.outDir(), "replays")
 	os.MkdirAll(dir, 0o755)
 	name := fmt.Sprintf("%s-%s-%s.json", prop, h.Func, sanitize(v.Label))
+	if _, err := os.Stat(filepath.Join(dir, name)); err == nil && idx > 0 {
+		name = fmt.Sprintf("%s-%s-%s.%d.json", prop, h.Func, sanitize(v.Label), idx)
+	}
 	p := filepath.Join(dir, name)
 	rf := replayFile{Property: prop, Pkg: h.Pkg, Harness: h.Func, Label: v.Label, Kind: v.Kind, Msg: v.Msg, Params: h.cur.Params, Tape: v.Tape, Expect: "violation", Case: v.Case}
 	b, _ := json.MarshalIndent(rf, "", " ")
